@@ -423,6 +423,66 @@ def parse_tokens(steps):
     return out
 
 
+def raw_frame(f):
+    """independent serialiser (RFC 6455 section 5.2) for the wire cases"""
+    p = unhx(f["p_hex"]); key = None if f.get("key_hex") is None else unhx(f["key_hex"])
+    b0 = (128 if f["fin"] else 0) | (f["rsv"] << 4) | f["op"]
+    m = 128 if key is not None else 0
+    n = len(p)
+    if f.get("len_form") == 2 or (f.get("len_form") is None and 125 < n <= 65535): hdr = bytes([b0, m | 126]) + struct.pack("!H", n & 0xffff)
+    elif f.get("len_form") == 8 or (f.get("len_form") is None and n > 65535): hdr = bytes([b0, m | 127]) + struct.pack("!Q", n)
+    else: hdr = bytes([b0, m | min(n, 125)])
+    if key is not None:
+        return hdr + key + bytes(x ^ key[i % 4] for i, x in enumerate(p))
+    return hdr + p
+
+
+def wire_bytes(case):
+    b = bytearray(b"".join(raw_frame(f) for f in case["frames"]))
+    for pos, val in case.get("mut", []):
+        if pos < len(b): b[pos] = val
+    if case.get("trunc") is not None: b = b[:case["trunc"]]
+    return bytes(b)
+
+
+def run_wire(case):
+    """wsproto's frame codec on the same bytes: FrameDecoder (whole buffer), the event mapping of Connection, and the
+    serialiser for every frame wsproto is able to send"""
+    from wsproto import frame_protocol as FP
+    buf = wire_bytes(case)
+    role_client = bool(case["client"])
+    dec = FP.FrameDecoder(client=role_client, extensions=[])
+    dec.receive_bytes(buf)
+    frames, fail = [], False
+    while True:
+        try:
+            f = dec.process_buffer()
+        except FP.ParseFailed:
+            fail = True; break
+        if f is None or not f.frame_finished: break
+        frames.append(f"{int(f.message_finished)}.{int(f.opcode)}.{hx(bytes(f.payload))}")
+    conn = wsproto.Connection(ConnectionType.CLIENT if role_client else ConnectionType.SERVER)
+    conn.receive_data(buf)
+    evs, evfail = [], False
+    for ev in conn.events():
+        if isinstance(ev, WE.CloseConnection) and conn.state is WSState.OPEN: evfail = True; break
+        if isinstance(ev, WE.Message) and not ev.frame_finished: break      # trailing partial frame
+        evs.append(ev_token(ev, "f"))
+    enc = []
+    for f in case["frames"]:
+        key = None if f.get("key_hex") is None else unhx(f["key_hex"])
+        if f["rsv"] or f["op"] not in (0, 1, 2, 8, 9, 10) or f.get("len_form") is not None or (f["op"] >= 8 and len(unhx(f["p_hex"])) > 125):
+            enc.append(None); continue
+        fp = FP.FrameProtocol(client=key is not None, extensions=[])
+        saved = FP.os.urandom
+        FP.os.urandom = lambda n, k=key: k
+        try:
+            enc.append(hx(bytes(fp._serialize_frame(Opcode(f["op"]), unhx(f["p_hex"]), bool(f["fin"])))))
+        finally:
+            FP.os.urandom = saved
+    return {"frames": frames, "fail": fail, "events": "fail" if evfail else (" ".join(evs) if evs else "-"), "enc": enc}
+
+
 class Check(PropertyCheck):
     prop = "C28"
     design_ref = "§5 C28"
@@ -669,6 +729,40 @@ class Check(PropertyCheck):
                     for c in cuts:
                         yield {"kind": "e2e", "deflate": 0, "cpiggy": [], "spiggy": [fr1, fr2], "sseg": [c], "script": follow, "policy": []}
 
+    def _wire_case(self, rng):
+        client = rng.randint(0, 1)            # role of the receiver; the sender masks iff the receiver is the server
+        frames, open_msg, valid = [], False, True
+        for _ in range(rng.randint(1, 4)):
+            q = rng.random()
+            n = rng.pick([0, 1, 5, 124, 125, 126, 127, 300]) if rng.chance(0.85) else rng.pick([65535, 65536, 70000])
+            if q < 0.65:
+                op = 0 if open_msg else rng.pick([1, 2]); fin = int(rng.chance(0.6)); open_msg = not fin
+                p = (b"a\xc3\xa9" * (n // 3 + 1))[:n] if op == 1 else rng.bytes_(min(n, 40)) + b"\x00" * max(0, n - 40)
+                if op != 2: p = p.decode("utf-8", "ignore").encode()
+            else:
+                op = rng.pick([8, 9, 10]); fin = 1; n = min(n, 125)
+                p = (struct.pack("!H", rng.pick([1000, 1001, 1011, 3000, 4999, 999, 1005, 1016, 2999, 5000])) + b"bye")[: max(2, n)] if op == 8 and rng.chance(0.8) else rng.bytes_(min(n, 20))
+            f = {"fin": fin, "rsv": 0, "op": op, "key_hex": None if client else hx(rng.bytes_(4)), "p_hex": hx(p)}
+            r = rng.random()
+            if r < 0.05: f["rsv"] = rng.randint(1, 7); valid = False
+            elif r < 0.09: f["op"] = rng.pick([3, 7, 11, 15]); valid = False
+            elif r < 0.12: f["key_hex"] = hx(rng.bytes_(4)) if client else None; valid = False
+            elif r < 0.15 and op >= 8: f["fin"] = 0; valid = False
+            elif r < 0.19 and len(p) <= 125: f["len_form"] = rng.pick([2, 8]); valid = False
+            frames.append(f)
+        if rng.chance(0.12) and len(frames) > 1:     # message sequencing violations (MessageDecoder)
+            k = rng.randint(0, len(frames) - 1)
+            if frames[k]["op"] in (0, 1, 2): frames[k]["op"] = rng.pick([0, 1, 2]); valid = False
+        case = {"kind": "wire", "client": client, "frames": frames, "valid": int(valid), "events": 1}
+        r = rng.random()
+        total = len(wire_bytes(case))
+        if r < 0.15 and total: case["trunc"] = rng.randint(0, total - 1)
+        elif r < 0.3 and total:
+            # a byte of the header region is overwritten: payload bytes may shift, so text/close-reason UTF-8 validity
+            # (a parameter of the model) is no longer known -> compare frames only, not events
+            case["mut"] = [[rng.randint(0, min(total - 1, 13)), rng.getrandbits(8)]]; case["events"] = 0
+        return case
+
     def _e2e_case(self, rng):
         base = self._layer_case(rng)
         def piggy():
@@ -712,7 +806,9 @@ class Check(PropertyCheck):
             r = rng.random()
             if r < 0.02:
                 yield self._e2e_case(rng)
-            elif r < 0.12:
+            elif r < 0.10:
+                yield self._wire_case(rng)
+            elif r < 0.16:
                 yield {"kind": "san", "data_hex": hx(bytes(rng.pick(SOUP) if rng.chance(0.8) else rng.getrandbits(8) for _ in range(rng.randint(1, 24))))}
             elif r < 0.955:
                 yield self._frag_case(rng)
@@ -735,6 +831,7 @@ class Check(PropertyCheck):
                     assert isinstance(m, WE.BytesMessage)
                     frames.append([hx(bytes(m.data)), int(m.message_finished)])
             return {"frames": frames}
+        if k == "wire": return run_wire(case)
         obs = run_e2e(case) if k == "e2e" else run_layer(case)
         self._last = (case, obs.pop("lines"))
         return obs
@@ -759,6 +856,13 @@ class Check(PropertyCheck):
             if content == b"".join(frags) and frags and (not case["text"] or all(valid_utf8(f) for f in frags)):
                 if [p for p, _ in frames] != frags:
                     fails.append("unmodified message re-fragmented: " + str([len(p) for p, _ in frames]) + " vs " + str([len(f) for f in frags]))
+            return fails
+        if k == "wire":
+            # wsproto law used by the relay theorems: frames out = frames in (unmodified, complete, well-formed streams)
+            if not case.get("mut") and case.get("trunc") is None and case.get("valid"):
+                want = [f"{int(f['fin'])}.{f['op']}.{f['p_hex']}" for f in case["frames"]]
+                if obs["fail"] or obs["frames"] != want:
+                    fails.append(f"wsproto decoded {obs['frames']} fail={obs['fail']} from the frames {want}")
             return fails
         return self._layer_oracle(case, obs)
 
@@ -861,6 +965,13 @@ class Check(PropertyCheck):
         if k == "frag":
             lens = ",".join(str(len(unhx(f))) for f in case["frags_hex"]) or "-"
             return [f"frag {case['text']} {lens} {case['content_hex']}"]
+        if k == "wire":
+            h = hx(wire_bytes(case))
+            lines = [f"fdec {case['client']} {h}"]
+            if case.get("events"): lines.append(f"fev {case['client']} {h}")
+            for f in case["frames"]:
+                lines.append(f"fenc {int(f['fin'])} {f['rsv']} {f['op']} {'none' if f.get('key_hex') is None else f['key_hex']} {f['p_hex']}")
+            return lines
         # layer cases: the model consumes the events a shadow wsproto connection yields for the same bytes;
         # impl() has just computed them for this very case (same process), otherwise re-run
         last = getattr(self, "_last", None)
@@ -868,6 +979,14 @@ class Check(PropertyCheck):
         return ["reset", "policy " + " ".join(case.get("policy", []))] + lines + ["state"]
 
     def model_obs(self, case, replies):
+        if case["kind"] == "wire":
+            fr, tail = replies[0].rsplit(" | ", 1)
+            frames = [] if fr == "-" else [".".join([t.split(".")[0], t.split(".")[2], t.split(".")[4]]) for t in fr.split(" ")]
+            out = {"frames": frames, "fail": tail.endswith("fail")}
+            i = 1
+            if case.get("events"): out["events"] = replies[1]; i = 2
+            out["enc"] = [r for r in replies[i:]]
+            return out
         if case["kind"] == "e2e":
             # whole-run comparison: the order of the events is the one the WebSocket layer actually saw
             toks = [t for r in replies[2:-1] if r != "-" for t in r.split(" ")]
@@ -881,12 +1000,20 @@ class Check(PropertyCheck):
         k = case["kind"]
         if k == "san": return obs["out"]
         if k == "frag": return ";".join(p + ("!" if fin else "+") for p, fin in obs["frames"])
+        if k == "wire":
+            out = {"frames": obs["frames"], "fail": obs["fail"]}
+            if case.get("events"): out["events"] = obs["events"]
+            # frames wsproto cannot serialise are compared against the independent serialiser instead
+            out["enc"] = [e if e is not None else hx(raw_frame({k2: v for k2, v in f.items() if k2 != "len_form"}))
+                          for e, f in zip(obs["enc"], case["frames"])]
+            return out
         return {"steps": obs["steps"], "state": obs["state"]}
 
     def classify(self, case, obs):
         k = case["kind"]
         if k == "san": return ("san", case["data_hex"])
         if k == "frag": return ("frag", case["text"], tuple(case["frags_hex"]), case["content_hex"])
+        if k == "wire": return ("wire", case["client"], hx(wire_bytes(case)))
         return (k, str(virtual_script(case)), str(case.get("sseg")), str(case["policy"]), case["deflate"])
 
     def branches(self, case, obs):
@@ -904,6 +1031,16 @@ class Check(PropertyCheck):
                     lens = [len(unhx(p)) for p, _ in obs["frames"]]
                     if len(content) != sum(map(len, frags)) and any(l not in (FS, 0) for l in lens[:-1]): out.append("frag:cut-moved-back")
             return out
+        if k == "wire":
+            out = ["wire:fail" if obs["fail"] else "wire:ok", "wire:nframes=%d" % min(len(obs["frames"]), 4)]
+            for f in case["frames"]:
+                n = len(unhx(f["p_hex"]))
+                out.append("wire:len7" if n <= 125 else ("wire:len16" if n <= 65535 else "wire:len64"))
+                out.append("wire:masked" if f.get("key_hex") is not None else "wire:unmasked")
+            if case.get("mut"): out.append("wire:mutated")
+            if case.get("trunc") is not None: out.append("wire:truncated")
+            if obs["events"] == "fail": out.append("wire:event-fail")
+            return sorted(set(out))
         out = [f"{k}:deflate" if case["deflate"] else f"{k}:plain"]
         for op in case["script"]: out.append(f"{k}:op:" + op["op"])
         for a in case["policy"]: out.append(f"{k}:policy:" + a[0])
